@@ -93,7 +93,7 @@ pub struct Cfg {
 
 pub trait ShapeOps: 'static {
     type Target: Clone + Default + 'static;
-    type Tl: Timeline<Target = Self::Target> + Clone + mina::TimelineOrBuilder<Self::Tl> + 'static;
+    type Tl: Timeline<Target = Self::Target> + Clone + Send + mina::TimelineOrBuilder<Self::Tl> + 'static;
     const NAME: &'static str;
     /// (kind, animated?) for every field of the target struct, in declaration order
     fn fields() -> Vec<(&'static str, bool)>;
@@ -206,6 +206,15 @@ shape_ops!(W20Ops, W20, W20, "W20",
     all: [a:"f64":f64, b:"f64":f64, c:"f64":f64, d:"f64":f64, e:"f64":f64, f:"f64":f64, g:"f64":f64, h:"f64":f64, i:"f64":f64, j:"f64":f64,
           k:"i64":i64, l:"i64":i64, m:"i64":i64, n:"i64":i64, o:"i64":i64, p:"i64":i64, q:"f32":f32, r:"f32":f32, s:"f32":f32, t:"f32":f32],
     anim: [a, b, c, d, e, f, g, h, i, j, k, l, m, n, o, p, q, r, s, t]);
+
+/// a very wide struct: 72 animated f64 fields — its keyframe data (72 × Option<f64>) is larger than 1 KiB
+#[derive(Animate, Clone, Debug, Default, PartialEq)]
+pub struct W72 {
+    pub a00: f64, pub a01: f64, pub a02: f64, pub a03: f64, pub a04: f64, pub a05: f64, pub a06: f64, pub a07: f64, pub a08: f64, pub a09: f64, pub a10: f64, pub a11: f64, pub a12: f64, pub a13: f64, pub a14: f64, pub a15: f64, pub a16: f64, pub a17: f64, pub a18: f64, pub a19: f64, pub a20: f64, pub a21: f64, pub a22: f64, pub a23: f64, pub a24: f64, pub a25: f64, pub a26: f64, pub a27: f64, pub a28: f64, pub a29: f64, pub a30: f64, pub a31: f64, pub a32: f64, pub a33: f64, pub a34: f64, pub a35: f64, pub a36: f64, pub a37: f64, pub a38: f64, pub a39: f64, pub a40: f64, pub a41: f64, pub a42: f64, pub a43: f64, pub a44: f64, pub a45: f64, pub a46: f64, pub a47: f64, pub a48: f64, pub a49: f64, pub a50: f64, pub a51: f64, pub a52: f64, pub a53: f64, pub a54: f64, pub a55: f64, pub a56: f64, pub a57: f64, pub a58: f64, pub a59: f64, pub a60: f64, pub a61: f64, pub a62: f64, pub a63: f64, pub a64: f64, pub a65: f64, pub a66: f64, pub a67: f64, pub a68: f64, pub a69: f64, pub a70: f64, pub a71: f64,
+}
+shape_ops!(W72Ops, W72, W72, "W72",
+    all: [a00:"f64":f64, a01:"f64":f64, a02:"f64":f64, a03:"f64":f64, a04:"f64":f64, a05:"f64":f64, a06:"f64":f64, a07:"f64":f64, a08:"f64":f64, a09:"f64":f64, a10:"f64":f64, a11:"f64":f64, a12:"f64":f64, a13:"f64":f64, a14:"f64":f64, a15:"f64":f64, a16:"f64":f64, a17:"f64":f64, a18:"f64":f64, a19:"f64":f64, a20:"f64":f64, a21:"f64":f64, a22:"f64":f64, a23:"f64":f64, a24:"f64":f64, a25:"f64":f64, a26:"f64":f64, a27:"f64":f64, a28:"f64":f64, a29:"f64":f64, a30:"f64":f64, a31:"f64":f64, a32:"f64":f64, a33:"f64":f64, a34:"f64":f64, a35:"f64":f64, a36:"f64":f64, a37:"f64":f64, a38:"f64":f64, a39:"f64":f64, a40:"f64":f64, a41:"f64":f64, a42:"f64":f64, a43:"f64":f64, a44:"f64":f64, a45:"f64":f64, a46:"f64":f64, a47:"f64":f64, a48:"f64":f64, a49:"f64":f64, a50:"f64":f64, a51:"f64":f64, a52:"f64":f64, a53:"f64":f64, a54:"f64":f64, a55:"f64":f64, a56:"f64":f64, a57:"f64":f64, a58:"f64":f64, a59:"f64":f64, a60:"f64":f64, a61:"f64":f64, a62:"f64":f64, a63:"f64":f64, a64:"f64":f64, a65:"f64":f64, a66:"f64":f64, a67:"f64":f64, a68:"f64":f64, a69:"f64":f64, a70:"f64":f64, a71:"f64":f64],
+    anim: [a00, a01, a02, a03, a04, a05, a06, a07, a08, a09, a10, a11, a12, a13, a14, a15, a16, a17, a18, a19, a20, a21, a22, a23, a24, a25, a26, a27, a28, a29, a30, a31, a32, a33, a34, a35, a36, a37, a38, a39, a40, a41, a42, a43, a44, a45, a46, a47, a48, a49, a50, a51, a52, a53, a54, a55, a56, a57, a58, a59, a60, a61, a62, a63, a64, a65, a66, a67, a68, a69, a70, a71]);
 
 thread_local! {
     /// set by the runner for the duration of `StateAnimator::set_state` / `advance` only
